@@ -307,7 +307,8 @@ Inductive op :=
 | OGet (k : cls) (id : Z) (fresh : bool)              (* cls.get(id), after cache.clear() when fresh *)
 | OSelect (k : cls)                                   (* list(cls.select(orderBy='id')) *)
 | OExpire (k : cls) (id : Z)                          (* obj.expire() *)
-| OSyncFull (k : cls) (id : Z).                       (* obj.sync() *)
+| OSyncFull (k : cls) (id : Z)                        (* obj.sync() *)
+| OPickle (k : cls) (id : Z).                         (* pickle.dumps(obj) *)
 
 (* the result of the update paths: outcome, trace, the instance's pending
    values afterwards, the UPDATE statements that reached the table *)
@@ -459,6 +460,10 @@ Definition step (g : cfg) (st : state) (o : op) : state * outcome * list (ev cls
       with_handle st k id (fun h => commit_ures st k id (set_core g k id (h_pend h) (k_fired (ks st k)) false (mk_kw kw0)))
   | OSync k id =>
       with_handle st k id (fun h => commit_ures st k id (sync_core g k id (h_pend h) (k_fired (ks st k))))
+  | OPickle k id =>
+      (* __getstate__: `if lazyUpdate and _SO_createValues: self.syncUpdate()`,
+         then a copy of __dict__ -- no reload, nothing else is sent or written *)
+      with_handle st k id (fun h => commit_ures st k id (sync_core g k id (h_pend h) (k_fired (ks st k))))
   | ODestroy k id =>
       with_handle st k id (fun h =>
         let s := ks st k in
@@ -572,7 +577,7 @@ Definition spec_events (g : cfg) (st : state) (o : op) : list (ev cls) :=
         ++ [EWrite (WDelete k id)]
         ++ run_posts SDestroy k id (posts SDestroy L)
         ++ after_part (tab g k) SDestroyed k id
-  | OSyncFull k id =>
+  | OSyncFull k id | OPickle k id =>
       let p := pend_of st k id in
       if is_nil p then []
       else [EWrite (WUpdate k id (sort_cols p))] ++ after_part (tab g k) SUpdated k id
@@ -592,7 +597,7 @@ Definition spec_table (g : cfg) (st : state) (o : op) : list (Z * kwargs) :=
   | OSet k id kw0 =>
       if is_lazy k then k_tbl (ks st k)
       else tbl_update id (sort_cols (final_kw SUpdate (sel SUpdate (tab g k)) (mk_kw kw0))) (k_tbl (ks st k))
-  | OSync k id | OSyncFull k id => tbl_update id (sort_cols (pend_of st k id)) (k_tbl (ks st k))
+  | OSync k id | OSyncFull k id | OPickle k id => tbl_update id (sort_cols (pend_of st k id)) (k_tbl (ks st k))
   | ODestroy k id => tbl_delete id (k_tbl (ks st k))
   | OGet k _ _ | OSelect k | OExpire k _ => k_tbl (ks st k)
   end.
@@ -609,7 +614,7 @@ Definition spec_pend (g : cfg) (st : state) (o : op) : kwargs :=
   end.
 Definition op_target (o : op) : option (cls * Z) :=
   match o with
-  | OAssign k id _ _ | OSet k id _ | OSync k id | OExpire k id | OSyncFull k id => Some (k, id)
+  | OAssign k id _ _ | OSet k id _ | OSync k id | OExpire k id | OSyncFull k id | OPickle k id => Some (k, id)
   | _ => None
   end.
 
@@ -628,14 +633,14 @@ Definition after_sig (st : state) (o : op) : option sig :=
   match o with
   | OCreate _ _ => Some SCreated
   | OAssign k _ _ _ | OSet k _ _ => if is_lazy k then None else Some SUpdated
-  | OSync k id | OSyncFull k id => if is_nil (pend_of st k id) then None else Some SUpdated
+  | OSync k id | OSyncFull k id | OPickle k id => if is_nil (pend_of st k id) then None else Some SUpdated
   | ODestroy _ _ => Some SDestroyed
   | _ => None
   end.
 Definition op_cls (o : op) : cls :=
   match o with
   | OCreate k _ | OAssign k _ _ _ | OSet k _ _ | OSync k _ | ODestroy k _ | OGet k _ _ | OSelect k
-  | OExpire k _ | OSyncFull k _ => k
+  | OExpire k _ | OSyncFull k _ | OPickle k _ => k
   end.
 
 (* does the operation owe its class a delivery of signal s? *)
@@ -650,6 +655,28 @@ Definition around (o : op) : sig * sig :=
   | _ => (SUpdate, SUpdated)
   end.
 Definition is_create (o : op) : bool := match o with OCreate _ _ => true | _ => false end.
+
+(* the flush points of a lazy instance: syncUpdate(), sync(), pickle.dumps();
+   the operations that put values into its queue; running a history for its
+   final state *)
+Definition is_flush_of (o : op) (k : cls) (id : Z) : bool :=
+  match o with
+  | OSync k' id' | OSyncFull k' id' | OPickle k' id' => cls_eqb k k' && Z.eqb id id'
+  | _ => false
+  end.
+Definition queues_for (o : op) (k : cls) (id : Z) : bool :=
+  match o with
+  | OAssign k' id' _ _ | OSet k' id' _ => cls_eqb k k' && Z.eqb id id'
+  | _ => false
+  end.
+Definition is_expire (o : op) : bool := match o with OExpire _ _ => true | _ => false end.
+Definition exec (g : cfg) (st : state) (ops : list op) : state :=
+  fold_left (fun s o => fst (fst (step g s o))) ops st.
+(* what a flush of a queue `p` is documented to do: one UPDATE holding the
+   queued values, then RowUpdatedSignal to every receiver, then its callbacks;
+   nothing at all for an empty queue *)
+Definition flush_events (g : cfg) (k : cls) (id : Z) (p : kwargs) : list (ev cls) :=
+  if is_nil p then [] else [EWrite (WUpdate k id (sort_cols p))] ++ after_part (tab g k) SUpdated k id.
 
 (* counting deliveries / locating events in a trace *)
 Definition is_sig_to {K} (s : sig) (li : Z) (e : ev K) : bool :=
@@ -880,3 +907,197 @@ Fixpoint created_after_inserts {K} (tr : list (ev K)) : bool :=
   end.
 Definition inserts_of {K} (tr : list (ev K)) : list (K * Z) :=
   flat_map (fun e => match e with EWrite (WInsert k id _) => [(k, id)] | _ => [] end) tr.
+
+(* ------------------------------------------------------------------ *)
+(* Part 6: updates of chain instances                                   *)
+
+(* InheritableSQLMeta.addColumn gives a child class, for every column of its
+   parent, a setter
+       def setfunc(self, val):
+           if not creating and not row_update_sig_suppress:
+               self.sqlmeta.send(RowUpdateSignal, self, {cname: val})
+           setattr(self._parent, cname, val)
+   (the grandchild inherits the child's): an assignment of an inherited column
+   sends RowUpdateSignal of every class between the instance's and the
+   column's owner -- each with a throw-away dict -- and ends in the owner's
+   _SO_setValue (RowUpdateSignal, validation, UPDATE of the owner's table,
+   RowUpdatedSignal + callbacks of the owner's class).
+   InheritableSQLObject.set of an instance that has a parent is
+   SQLObject.set(_suppress_set_sig=True): NO RowUpdateSignal of its own; the
+   own column is validated, the inherited ones go one by one, in the order of
+   the keyword dict, through setattr (= the assignment above, complete with
+   its UPDATE and after-event), then one UPDATE of the own column (if given),
+   then RowUpdatedSignal + callbacks of the instance's class.  The root class
+   has plain setters and the plain set().
+   Restriction: the listeners of a chain do not rewrite and raise only at
+   RowCreateSignal / RowCreatedSignal (elsewhere ARaise counts as ALog,
+   APostRaise t as APost t). *)
+Definition owner (c : col) : lvl := match c with CA => LA | CB => LB | CC => LC end.
+Definition ct_update (id : Z) (v : val) (t : list crow) : list crow :=
+  map (fun r => if Z.eqb (crow_id r) id then (id, v, snd r) else r) t.
+(* the instance of level l with this id: its row carries no childName *)
+Definition is_leaf (id : Z) (r : crow) : bool :=
+  Z.eqb (crow_id r) id && match snd r with None => true | Some _ => false end.
+Definition has_handle (s : chstate) (l : lvl) (id : Z) : bool := existsb (is_leaf id) (ctable s l).
+
+(* result of an update path: the exception (None = done), the trace, the state *)
+Definition ures_c := (option exn * list (ev lvl) * chstate)%type.
+
+(* setattr(inst, c, v) on the instance of level (hd ls), ancestors (tl ls) *)
+Fixpoint uassign_at (t : tabs) (ls : list lvl) (id : Z) (c : col) (v : val) (s : chstate) : ures_c :=
+  match ls with
+  | [] => (Some XKeyError, [], s)      (* not reachable: c belongs to the lineage *)
+  | a :: ps =>
+      let sg := sig_events SUpdate a (Some id) (sel SUpdate (ltab t a)) [(c, v)] in
+      if lvl_eqb a (owner c) then
+        (* _SO_setValue of the owner *)
+        if negb (val_ok (col_ty c) v) then (Some XInvalid, sg, s)
+        else (None,
+              sg ++ [EWrite (WUpdate a id [(c, v)])] ++ after_part (ltab t a) SUpdated a id,
+              set_ctable s a (ct_update id v (ctable s a)))
+      else
+        (* the generated setter: signal of this class, then the parent's turn *)
+        let r := uassign_at t ps id c v s in
+        (fst (fst r), sg ++ snd (fst r), snd r)
+  end.
+
+(* the `for name, value in extra.items(): setattr(self, name, value)` loop *)
+Fixpoint uextras (t : tabs) (ls : list lvl) (id : Z) (extra : kwargs) (s : chstate) : ures_c :=
+  match extra with
+  | [] => (None, [], s)
+  | (c, v) :: r =>
+      let x := uassign_at t ls id c v s in
+      match fst (fst x) with
+      | Some e => x
+      | None => let y := uextras t ls id r (snd x) in (fst (fst y), snd (fst x) ++ snd (fst y), snd y)
+      end
+  end.
+
+Definition uset (t : tabs) (l : lvl) (id : Z) (kw : kwargs) (s : chstate) : ures_c :=
+  let own_kw := filter (fun p => lvl_eqb (owner (fst p)) l) kw in
+  let extra := filter (fun p => negb (lvl_eqb (owner (fst p)) l)) kw in
+  let L := sel SUpdate (ltab t l) in
+  (* only an instance without parent sends the RowUpdateSignal of set() *)
+  let sg := match parent l with None => sig_events SUpdate l (Some id) L kw | Some _ => [] end in
+  if negb (validate own_kw) then (Some XInvalid, sg, s)
+  else
+    let x := uextras t (lineage l) id extra s in
+    match fst (fst x) with
+    | Some e => (Some e, sg ++ snd (fst x), snd x)
+    | None =>
+        let s1 := snd x in
+        (None,
+         sg ++ snd (fst x)
+            ++ (if is_nil own_kw then [] else [EWrite (WUpdate l id (sort_cols own_kw))])
+            ++ after_part (ltab t l) SUpdated l id,
+         match kw_get (own l) own_kw with
+         | Some v => set_ctable s1 l (ct_update id v (ctable s1 l))
+         | None => s1
+         end)
+    end.
+
+Inductive cop :=
+| UCreate (l : lvl) (kw : list (col * val))
+| UAssign (l : lvl) (id : Z) (c : col) (v : val)      (* inst.c = v *)
+| USet (l : lvl) (id : Z) (kw : list (col * val)).    (* inst.set( **kw) *)
+
+Definition ures_out (id : Z) (r : ures_c) : chstate * coutcome * list (ev lvl) :=
+  (snd r, match fst (fst r) with None => CDone id | Some e => CExn e end, snd (fst r)).
+
+Definition chain_step (t : tabs) (s : chstate) (o : cop) : chstate * coutcome * list (ev lvl) :=
+  match o with
+  | UCreate l kw => chain_create t l kw s
+  | UAssign l id c v =>
+      if negb (has_handle s l id) || negb (chain_kw_ok l [(c, v)]) then (s, CBadInput, [])
+      else ures_out id (uassign_at t (lineage l) id c v s)
+  | USet l id kw0 =>
+      if negb (has_handle s l id) || negb (chain_kw_ok l (mk_kw kw0)) then (s, CBadInput, [])
+      else ures_out id (uset t l id (mk_kw kw0) s)
+  end.
+
+Record urec := { ur_pre : chstate; ur_op : cop; ur_out : coutcome; ur_tr : list (ev lvl); ur_post : chstate }.
+Fixpoint chain_steps (t : tabs) (s : chstate) (ops : list cop) : list urec :=
+  match ops with
+  | [] => []
+  | o :: r =>
+      let x := chain_step t s o in
+      {| ur_pre := s; ur_op := o; ur_out := snd (fst x); ur_tr := snd x; ur_post := fst (fst x) |}
+        :: chain_steps t (fst (fst x)) r
+  end.
+
+(* ---- what the update of a chain instance delivers, in closed form ---- *)
+Definition lvl_le (a b : lvl) : bool :=   (* a is b or an ancestor of b *)
+  existsb (lvl_eqb a) (lineage b).
+(* the classes from the instance's down to the column's owner *)
+Definition path_to (l o : lvl) : list lvl := filter (fun a => lvl_le o a) (lineage l).
+Definition uspec_assign (t : tabs) (l : lvl) (id : Z) (c : col) (v : val) : list (ev lvl) :=
+  flat_map (fun a => sig_events SUpdate a (Some id) (sel SUpdate (ltab t a)) [(c, v)]) (path_to l (owner c))
+    ++ [EWrite (WUpdate (owner c) id [(c, v)])]
+    ++ after_part (ltab t (owner c)) SUpdated (owner c) id.
+Definition uspec (t : tabs) (o : cop) : list (ev lvl) :=
+  match o with
+  | UCreate _ _ => []
+  | UAssign l id c v => uspec_assign t l id c v
+  | USet l id kw0 =>
+      let kw := mk_kw kw0 in
+      let own_kw := filter (fun p => lvl_eqb (owner (fst p)) l) kw in
+      let extra := filter (fun p => negb (lvl_eqb (owner (fst p)) l)) kw in
+      (match parent l with None => sig_events SUpdate l (Some id) (sel SUpdate (ltab t l)) kw | Some _ => [] end)
+        ++ flat_map (fun p => uspec_assign t l id (fst p) (snd p)) extra
+        ++ (if is_nil own_kw then [] else [EWrite (WUpdate l id (sort_cols own_kw))])
+        ++ after_part (ltab t l) SUpdated l id
+  end.
+(* the rows afterwards *)
+Definition store (id : Z) (s : chstate) (p : col * val) : chstate :=
+  set_ctable s (owner (fst p)) (ct_update id (snd p) (ctable s (owner (fst p)))).
+Definition uspec_state (o : cop) (s : chstate) : chstate :=
+  match o with
+  | UCreate _ _ => s
+  | UAssign l id c v => store id s (c, v)
+  | USet l id kw0 =>
+      let s1 := fold_left (store id) (filter (fun p => negb (lvl_eqb (owner (fst p)) l)) (mk_kw kw0)) s in
+      match kw_get (own l) (filter (fun p => lvl_eqb (owner (fst p)) l) (mk_kw kw0)) with
+      | Some v => store id s1 (own l, v)
+      | None => s1
+      end
+  end.
+
+(* the listeners that received signal s of class a, in the order of delivery *)
+Definition recv_of {K} (keq : K -> K -> bool) (s : sig) (a : K) (tr : list (ev K)) : list Z :=
+  flat_map (fun e => match e with
+                     | ESig s' a' _ _ li => if sig_eqb s s' && keq a a' then [li] else []
+                     | _ => []
+                     end) tr.
+(* how many rounds of signal s an update owes the receivers of class a *)
+Definition b2n (b : bool) : nat := if b then 1%nat else 0%nat.
+Definition uowed_assign (l : lvl) (c : col) (a : lvl) (s : sig) : nat :=
+  match s with
+  | SUpdate => b2n (lvl_le (owner c) a && lvl_le a l)     (* every class from the instance's down to the owner *)
+  | SUpdated => b2n (lvl_eqb a (owner c))                 (* the owner only *)
+  | _ => 0%nat
+  end.
+Definition uowed (o : cop) (a : lvl) (s : sig) : nat :=
+  match o with
+  | UCreate _ _ => 0%nat
+  | UAssign l _ c _ => uowed_assign l c a s
+  | USet l _ kw0 =>
+      (match s with
+       | SUpdate => match parent l with None => b2n (lvl_eqb a l) | Some _ => 0%nat end
+       | SUpdated => b2n (lvl_eqb a l)
+       | _ => 0%nat
+       end
+       + list_sum (map (fun p => uowed_assign l (fst p) a s)
+                       (filter (fun p => negb (lvl_eqb (owner (fst p)) l)) (mk_kw kw0))))%nat
+  end.
+(* n rounds over the receivers of a class *)
+Definition rounds (n : nat) (L : list (Z * act)) : list Z := concat (repeat (map fst L) n).
+Definition is_uupdate (o : cop) : bool := match o with UCreate _ _ => false | _ => true end.
+Definition uop_lvl (o : cop) : lvl := match o with UCreate l _ | UAssign l _ _ _ | USet l _ _ => l end.
+(* the updates that behave like those of a plain class: an assignment of a
+   column the instance's own class declares, and anything on the root class *)
+Definition uplain (o : cop) : bool :=
+  match o with
+  | UCreate _ _ => false
+  | UAssign l _ c _ => lvl_eqb (owner c) l
+  | USet l _ _ => lvl_eqb l LA
+  end.
